@@ -11,6 +11,7 @@ accepted gates.
 from __future__ import annotations
 
 import ast
+import re
 
 from ..core import AnalysisError, call_name, dotted, func_params, is_self_attr, kwarg
 from ..flow import dominating_atoms, enclosing_loops, block_of, enclosing_tests, always_raises
@@ -338,7 +339,7 @@ def run(ctx):
     # ------------------------------------------------------------------ C07.e
     ctx.rule('C07.e', 'body-for-operation substitution: a transformer may treat the body (`.circuit`) of a CircuitOperation as standing for '
              'the operation (expanding it into operations, or handing it to a rewriter as a merged component) only under a test that its '
-             'own intermediate/merged tag is on the operation - otherwise repetitions and maps of a user sub-circuit are ignored', floor=2, style='RG')
+             'own intermediate/merged tag is on the operation - otherwise repetitions and maps of a user sub-circuit are ignored', floor=3, style='RG')
     for m2 in sorted(repo.modules.values(), key=lambda mm_: mm_.rel):
         if not m2.rel.startswith(('cirq-core/cirq/transformers/', 'cirq-google/cirq_google/transformers/')):
             continue
@@ -354,15 +355,57 @@ def run(ctx):
                     site = n
                 elif isinstance(par, ast.Attribute) and par.attr in ('all_operations', 'moments', 'unfreeze') and False:
                     site = n
-            # cast(CircuitOperation, op_untagged) handed to a rewriter as a merged component
-            if isinstance(n, ast.IfExp) and isinstance(n.body, ast.Call) and call_name(n.body) == 'cast' and 'CircuitOperation' in ast.unparse(n.body) \
-                    and isinstance(n.orelse, ast.Call) and 'CircuitOperation' in ast.unparse(n.orelse.func):
-                ok = 'in op.tags' in ast.unparse(n.test) and not isinstance(n.test, ast.UnaryOp)
+            # a value handed to a callable that is documented (annotated) to receive a CircuitOperation standing for a merged component
+            if isinstance(n, ast.Call) and isinstance(n.func, ast.Name) and n.args:
+                chain = []
                 fnn = n
-                while fnn in parents2 and not isinstance(fnn, ast.FunctionDef):
+                while fnn in parents2:
                     fnn = parents2[fnn]
-                ctx.ob('C07.e', f'{m2.name}.{getattr(fnn, "name", "?")}:merged-component-cast', ok,
-                       '' if ok else 'an arbitrary CircuitOperation is handed to the rewriter as if it were a merged component', m2.rel, n.lineno)
+                    if isinstance(fnn, (ast.FunctionDef, ast.Lambda)):
+                        chain.append(fnn)
+                cb_params = set()
+                co_params = set()
+                for f_ in chain:
+                    for a_ in f_.args.args + f_.args.kwonlyargs:
+                        ann = ast.unparse(a_.annotation) if getattr(a_, 'annotation', None) is not None else ''
+                        if re.search(r'Callable\[\[[^\]]*CircuitOperation\]', ann):
+                            cb_params.add(a_.arg)
+                        elif ann.endswith('CircuitOperation'):
+                            co_params.add(a_.arg)
+                if n.func.id in cb_params:
+                    inner_fn = next((f_ for f_ in chain if isinstance(f_, ast.FunctionDef)), None)
+                    dom = dominating_atoms(parents2, n, inner_fn)
+
+                    def _arms(e, guards):
+                        if isinstance(e, ast.IfExp):
+                            return _arms(e.body, guards + [(e.test, True)]) + _arms(e.orelse, guards + [(e.test, False)])
+                        if isinstance(e, ast.Call) and call_name(e) == 'cast' and len(e.args) == 2:
+                            return _arms(e.args[1], guards)
+                        return [(e, guards)]
+
+                    def _tag_guard(guards):
+                        for t_, pol in guards:
+                            for a_ in (t_.values if isinstance(t_, ast.BoolOp) and isinstance(t_.op, ast.And) and pol else [t_]):
+                                if isinstance(a_, ast.Compare) and len(a_.ops) == 1 and isinstance(a_.ops[0], ast.In) and pol \
+                                        and ast.unparse(a_.comparators[0]).endswith('.tags'):
+                                    return True
+                                if isinstance(a_, ast.Compare) and len(a_.ops) == 1 and isinstance(a_.ops[0], ast.NotIn) and not pol \
+                                        and ast.unparse(a_.comparators[0]).endswith('.tags'):
+                                    return True
+                        return False
+
+                    bad = []
+                    for e, guards in _arms(n.args[0], []):
+                        fresh = isinstance(e, ast.Call) and ast.unparse(e.func).split('.')[-1] == 'CircuitOperation'
+                        passthrough = isinstance(e, ast.Name) and e.id in co_params
+                        if not (fresh or passthrough or _tag_guard(guards + list(dom))):
+                            bad.append(ast.unparse(e))
+                    ok = not bad
+                    fname = getattr(inner_fn, 'name', '?')
+                    ctx.ob('C07.e', f'{m2.name}.{fname}:{n.func.id}(merged-component)', ok,
+                           '' if ok else f'`{bad[0]}` is handed to `{n.func.id}` (documented to receive the CircuitOperation of a merged component) '
+                           'without a test that the transformer\'s own tag is on the operation and without wrapping it in a fresh CircuitOperation: '
+                           'a user sub-circuit with repetitions / maps is then taken for its body', m2.rel, n.lineno)
             if site is not None:
                 fnn = n
                 while fnn in parents2 and not isinstance(fnn, ast.FunctionDef):
